@@ -819,4 +819,156 @@ theorem src_read_track (cs : Charset) (clip : Bool) (bs : List Nat) (p : Int) :
         simpa using this
       simp [hne, hname, throw, throwThe, MonadExceptOf.throw]
 
+/-! ### `read_file_header`, `MidiFile._load` -/
+
+theorem s16_eq (a b : Nat) : Py.s16 (a : Int) (b : Int) = Mido.s16 a b := by
+  have hc : ((a * 256 + b : Nat) : Int) = (a : Int) * 256 + (b : Int) := by
+    rw [Int.natCast_add, Int.natCast_mul]; rfl
+  unfold Py.s16 Mido.s16
+  simp only [hc]
+  by_cases h : a * 256 + b ≥ 32768
+  · have h' : (a : Int) * 256 + (b : Int) ≥ 32768 := by omega
+    rw [if_pos h', if_pos h]
+  · have h' : ¬ ((a : Int) * 256 + (b : Int) ≥ 32768) := by omega
+    rw [if_neg h', if_neg h]
+
+theorem src_read_file_header (bs : List Nat) (p : Int) :
+    Src.read_file_header (mkFile bs p) =
+      if bs.length < 8 then .error .EOFError
+      else if bs.take 4 ≠ mthd then .error .OSError
+      else
+        let size := be32 ((bs.drop 4).take 4)
+        match (bs.drop 8).take size with
+        | a :: b :: c :: d :: e :: f :: _ =>
+          .ok ((Mido.s16 a b, Mido.s16 c d, Mido.s16 e f),
+               mkFile ((bs.drop 8).drop size) (p + 8 + (min size (bs.drop 8).length : Nat)))
+        | _ => .error .EOFError := by
+  unfold Src.read_file_header
+  simp only [bind, Except.bind, pure, Except.pure, src_read_chunk_header]
+  by_cases h8 : bs.length < 8
+  · simp [h8]
+  · simp only [h8, if_false]
+    have hmthd : natsToInts mthd = [77, 84, 104, 100] := by decide
+    by_cases hname : bs.take 4 = mthd
+    · have hne : (natsToInts (bs.take 4) != ([77, 84, 104, 100] : List Int)) = false := by
+        rw [hname, hmthd]; simp
+      have hne' : (natsToInts mthd != ([77, 84, 104, 100] : List Int)) = false := by rw [hmthd]; simp
+      simp only [hne, hne', Bool.false_eq_true, if_false, hname, ne_eq, not_true_eq_false]
+      generalize hsz : be32 ((bs.drop 4).take 4) = size
+      generalize hbody : bs.drop 8 = body
+      have hk : min ((size : Int)).toNat (mkFile body (p + 8)).rest.length = min size body.length := by
+        simp [mkFile, natsToInts]
+      simp only [readUpTo, hk, len, mkFile, natsToInts, List.length_take, List.length_map]
+      have htake : List.take (min size body.length) (List.map Int.ofNat body) = natsToInts (body.take size) := by
+        simp [natsToInts, List.map_take, List.take_take]
+      have e1 : ((size : Int)).toNat = size := Int.toNat_natCast size
+      have hkk : min (min size body.length) body.length = min size body.length := by omega
+      have hlen : (body.take size).length = min size body.length := List.length_take
+      have hdrop : List.drop (min size body.length) (List.map Int.ofNat body) = List.map Int.ofNat (body.drop size) := by
+        rw [← List.map_drop]
+        congr 1
+        by_cases hs : size ≤ body.length
+        · rw [Nat.min_eq_left hs]
+        · rw [Nat.min_eq_right (by omega), List.drop_of_length_le (Nat.le_refl _), List.drop_of_length_le (by omega)]
+      simp only [e1, hkk, htake, hdrop]
+      -- the six header bytes, if they are there
+      match hd : body.take size, hlen with
+      | a :: b :: c :: d :: e :: f :: tail, hlen =>
+        have h6 : ¬ (((min size body.length : Nat) : Int) < 6) := by
+          rw [← hlen]; simp only [List.length_cons]; omega
+        simp only [h6, decide_false, Bool.false_eq_true, if_false, natsToInts, List.map_cons, List.take, unpackHHH,
+          Int.ofNat_eq_natCast, s16_eq]
+      | [], hlen | [_], hlen | [_, _], hlen | [_, _, _], hlen | [_, _, _, _], hlen | [_, _, _, _, _], hlen =>
+        have h6 : (((min size body.length : Nat) : Int) < 6) := by
+          rw [← hlen]; simp only [List.length_cons, List.length_nil]; omega
+        simp [h6, throw, throwThe, MonadExceptOf.throw]
+    · have hne : (natsToInts (bs.take 4) != ([77, 84, 104, 100] : List Int)) = true := by
+        rw [← hmthd]
+        simp only [bne_iff_ne, ne_eq]
+        intro hh
+        apply hname
+        have := congrArg intsToNats hh
+        simpa using this
+      simp [hne, hname, throw, throwThe, MonadExceptOf.throw]
+
+/-- the loop over the tracks of `_load` (the loop variable is not used) -/
+theorem src_load_loop (cs : Charset) (clip : Bool)
+    (F : Int → PyFile × List (List LEvent) → Except Err (ForInStep (PyFile × List (List LEvent))))
+    (hF : ∀ i s, F i s = (match Src.read_track (modelExt cs) s.1 clip with
+      | .error err => .error err
+      | .ok v => .ok (.yield (v.2, s.2 ++ [v.1])))) :
+    ∀ (is : List Int) (bs : List Nat) (p : Int) (acc : List (List LEvent)),
+      match readTracks cs clip is.length bs with
+      | .ok ts => ∃ f', forIn is (mkFile bs p, acc) F = .ok (f', acc ++ ts)
+      | .error e => forIn is (mkFile bs p, acc) F = .error e
+  | [], bs, p, acc => by simp [readTracks, pure, Except.pure]
+  | i :: is, bs, p, acc => by
+    rw [List.forIn_cons, hF]
+    simp only [List.length_cons, readTracks, src_read_track, bind, Except.bind]
+    cases ht : readTrack cs clip bs with
+    | error e => rfl
+    | ok pr =>
+      obtain ⟨t, rest⟩ := pr
+      simp only []
+      have ih := src_load_loop cs clip F hF is rest (p + bs.length - rest.length) (acc ++ [t])
+      cases hr : readTracks cs clip is.length rest with
+      | error e =>
+        simp only [hr] at ih
+        exact ih
+      | ok ts =>
+        simp only [hr] at ih
+        obtain ⟨f', hf⟩ := ih
+        refine ⟨f', ?_⟩
+        simp only [pure, Except.pure, hf, List.append_assoc, List.singleton_append]
+
+/-- one round of the loop over the tracks -/
+def loadStep (cs : Charset) (clip : Bool) (_ : Int) (s : PyFile × List (List LEvent)) :
+    Except Err (ForInStep (PyFile × List (List LEvent))) :=
+  match Src.read_track (modelExt cs) s.1 clip with
+  | .error err => .error err
+  | .ok v => .ok (.yield (v.2, s.2 ++ [v.1]))
+
+theorem forIn_load (cs : Charset) (clip : Bool) (l : List Int) (init : PyFile × List (List LEvent))
+    (F : Int → PyFile × List (List LEvent) → Except Err (ForInStep (PyFile × List (List LEvent))))
+    (hF : ∀ i s, F i s = loadStep cs clip i s) : forIn l init F = forIn l init (loadStep cs clip) := by
+  have : F = loadStep cs clip := funext fun i => funext fun s => hF i s
+  rw [this]
+
+/-- `MidiFile._load`, as translated from the source, reads from EVERY byte string what the model's `readFile`
+    reads: type, ticks per beat and all tracks, appended to the tracks the object held -/
+theorem src_load (cs : Charset) (clip : Bool) (bs : List Nat) (ty0 tpb0 : Int) (tracks0 : List (List LEvent)) :
+    (Src.MidiFile._load (modelExt cs) ty0 tpb0 tracks0 clip (mkFile bs 0)).map
+        (fun r => (r.1, r.2.1, r.2.2.1, r.2.2.2.1)) =
+      match readFile cs clip bs with
+      | .ok f => .ok (f.type, f.tpb, tracks0 ++ f.tracks, clip)
+      | .error e => .error e := by
+  unfold Src.MidiFile._load readFile
+  simp only [bind, Except.bind, pure, Except.pure, src_read_file_header]
+  by_cases h8 : bs.length < 8
+  · simp [h8, Except.map]
+  · simp only [h8, if_false]
+    by_cases hname : bs.take 4 = mthd
+    · simp only [hname, ne_eq, not_true_eq_false, if_false]
+      generalize List.take (be32 (List.take 4 (List.drop 4 bs))) (List.drop 8 bs) = data
+      generalize List.drop (be32 (List.take 4 (List.drop 4 bs))) (List.drop 8 bs) = rest
+      generalize (0 : Int) + 8 + ((min (be32 (List.take 4 (List.drop 4 bs))) (List.drop 8 bs).length : Nat) : Int) = q
+      match data with
+      | a :: b :: c :: d :: e :: f :: tail =>
+        simp only []
+        have hlenr : (rangeInt (Mido.s16 c d)).length = (Mido.s16 c d).toNat := by simp [rangeInt]
+        rw [forIn_load cs clip]
+        case hF => intro i s; unfold loadStep; cases Src.read_track (modelExt cs) s.1 clip <;> rfl
+        have hloop := src_load_loop cs clip (loadStep cs clip) (fun _ _ => rfl) (rangeInt (Mido.s16 c d)) rest q tracks0
+        rw [hlenr] at hloop
+        cases hr : readTracks cs clip (Mido.s16 c d).toNat rest with
+        | error err =>
+          simp only [hr] at hloop
+          simp only [hloop, Except.map]
+        | ok ts =>
+          simp only [hr] at hloop
+          obtain ⟨f', hf⟩ := hloop
+          simp only [hf, Except.map]
+      | [] | [_] | [_, _] | [_, _, _] | [_, _, _, _] | [_, _, _, _, _] => simp [Except.map]
+    · simp [hname, Except.map]
+
 end Mido
